@@ -202,7 +202,8 @@ def w_container(case):
                         else:
                             bump(res, 'beyond-eof-failed' if beyond else 'truncated-image-rejected')
             # argument boundaries
-            for (t, s, ok) in ((nt - 1, spt - 1, True), (nt, 0, False), (0, spt, False), (nt - 1, spt, False), (-1, 0, False)):
+            for (t, s, ok) in ((nt - 1, spt - 1, True), (nt, 0, False), (0, spt, False), (nt - 1, spt, False), (-1, 0, False),
+                               (1, -1, False), (1, -spt, False), (2, -spt - 1, False), (-1, spt, False), (nt, -1, False)):
                 if spt == 16 and cont == 'sdd':
                     break
                 rr = dfsrun.dfs(BIN, ['--file', fname, 'dump-sector', str(drive), str(t), str(s)], d)
